@@ -81,9 +81,7 @@ func (c *Cache[K, V]) Set(key K, val V, d time.Duration) error {
 	if item, ok := c.items[key]; ok && !item.expired() {
 		return fmt.Errorf("item with key '%v' already exists. Use the Update method", key)
 	}
-	c.store(key, val, d)
-
-	return nil
+	return c.store(key, val, d)
 }
 
 // SetDefault adds a new item into the cache with the default expiration time.
